@@ -92,6 +92,18 @@ def _removes_pair(prog, g, list_f, map_f, seen):
     return False
 
 
+def _step_is_one(call):
+    """std::next(it) / std::prev(it): the distance argument is defaulted or the literal 1"""
+    args = call.call_args()
+    if not args:
+        return False
+    rest = [a for a in args[1:] if a.k != "CXXDefaultArgExpr"]
+    if not rest:
+        return True
+    r0 = rest[0].strip_all()
+    return len(rest) == 1 and r0.k == "IntegerLiteral" and r0.get("v") == "1"
+
+
 def _is_tail_iterator(a, list_f):
     """std::prev(list.end()), --list.end(), or a local iterator initialised from list.end() and then decremented"""
     a0 = a.strip_all()
@@ -104,18 +116,33 @@ def _is_tail_iterator(a, list_f):
             e = e.c[0].strip_all()
         return e.k == "CXXMemberCallExpr" and _short((e.callee or {}).get("qn")) in ("end", "cend") and e.call_object() is not None \
             and e.call_object().strip_all().k == "MemberExpr" and e.call_object().strip_all().decl.get("n") in list_f
-    if a0.k == "CallExpr" and (a0.callee or {}).get("qn") == "std::prev" and len(a0.call_args()) == 1 and is_end(a0.call_args()[0]):
+    if a0.k == "CallExpr" and (a0.callee or {}).get("qn") == "std::prev" and _step_is_one(a0) and is_end(a0.call_args()[0]):
         return True
     if a0.k in ("UnaryOperator", "CXXOperatorCallExpr") and a0.op == "--" and a0.c and is_end(a0.c[-1]):
         return True
     if a0.k == "DeclRefExpr" and a0.decl and a0.decl.get("k") == "local":
         fn = a0.fn
         defs = [v for v in fn.walk() if v.k == "VarDecl" and v.decl and v.decl.get("id") == a0.decl["id"] and v.c]
-        dec = any(x.k in ("UnaryOperator", "CXXOperatorCallExpr") and x.op == "--" and x.c and x.c[-1].strip_all().k == "DeclRefExpr"
-                  and x.c[-1].strip_all().decl.get("id") == a0.decl["id"] for x in fn.walk())
-        if len(defs) == 1 and is_end(defs[0].c[0]) and dec:
-            return True
-        if len(defs) == 1:
+        vid = a0.decl["id"]
+
+        def is_var(e):
+            e = e.strip_all()
+            return e.k == "DeclRefExpr" and e.decl and e.decl.get("id") == vid
+        writes = []
+        for x in fn.walk():
+            if x.k in ("UnaryOperator", "CXXOperatorCallExpr") and x.op in ("--", "++") and x.c and any(is_var(c) for c in x.c):
+                writes.append(x)
+            elif x.k in ("BinaryOperator", "CompoundAssignOperator", "CXXOperatorCallExpr") and x.op in ("=", "+=", "-=") and x.c:
+                lhs = x.c[1] if x.k == "CXXOperatorCallExpr" and len(x.c) >= 3 else x.c[0]
+                if is_var(lhs):
+                    writes.append(x)
+            elif x.k == "CallExpr" and (x.callee or {}).get("qn") == "std::advance" and x.call_args() and is_var(x.call_args()[0]):
+                writes.append(x)
+        in_loop = any(a.k in ("WhileStmt", "ForStmt", "DoStmt", "CXXForRangeStmt") for w in writes for a in w.ancestors())
+        if len(defs) == 1 and is_end(defs[0].c[0]):
+            # auto last = list.end(); last--;   - exactly one step back, outside any loop
+            return len(writes) == 1 and writes[0].op == "--" and not in_loop
+        if len(defs) == 1 and not writes:
             return _is_tail_iterator(defs[0].c[0], list_f)
     return False
 
@@ -333,9 +360,20 @@ def rule_K1(prog, fixture=False):
         if not cn.startswith("dsplib::LRUCache<"):
             continue
         list_f = [f_["name"] for f_ in cj["fields"] if "list<" in f_["ctype"]]
+        # lookups somebody outside the class performs: an accessor no user of the cache calls cannot change which plans are kept
+        called = set()
+        for h in prog.functions.values():
+            if h.cls == cn or h.file.endswith("coverage.cc"):
+                continue
+            for x in h.walk():
+                if x.is_call() and x.callee and x.callee.get("cls") == cn:
+                    called.add(x.callee.get("usr"))
         for g in sorted([g for g in prog.functions.values() if g.cls == cn and g.kind == "method" and not g.get("implicit")], key=lambda g: g.line):
             ret = g.get("ret") or ""
             if ret in ("void", "bool", "int", "unsigned long", "size_t") or not ret:
+                continue
+            if g.usr not in called:
+                res.stats.setdefault("lookups_nobody_calls", []).append(g.short)
                 continue
             key = "K1:recency:%s::%s" % (cn, g.qn.rsplit("::", 1)[-1])
             where = "%s:%d" % (prog.rel(g.file), g.line)
@@ -349,7 +387,13 @@ def rule_K1(prog, fixture=False):
                         args = [a for a in n.call_args() if a.k != "CXXDefaultArgExpr"]
                         if len(args) == 4:
                             last = args[3].strip_all()
-                            one_past = last.k == "CallExpr" and (last.callee or {}).get("qn") in ("std::next",) and len(last.call_args()) == 1
+                            while last.k in ("CXXConstructExpr", "MaterializeTemporaryExpr") and len(last.c) == 1:
+                                last = last.c[0].strip_all()
+                            first = args[2].strip_all()
+                            while first.k in ("CXXConstructExpr", "MaterializeTemporaryExpr") and len(first.c) == 1:
+                                first = first.c[0].strip_all()
+                            one_past = last.k == "CallExpr" and (last.callee or {}).get("qn") in ("std::next",) and _step_is_one(last) \
+                                and last.call_args()[0].text() == first.text()
                             if not one_past:
                                 wide = n
                         elif len(args) == 2:
